@@ -326,13 +326,15 @@ UCreateCall(w, ptag, ctag, flags) ==
   /\ UNCHANGED <<cur, got, cb, runq, lk, stk, freeD, freeS, flS, nD, nS, nL, anw, bad, sv>>
 
 \* record allocation: reuse the head of this worker's free list; a fresh record only when it is empty
+InSeq(x, q) == \E i \in 1..Len(q) : q[i] = x
+Without(q, x) == LET i == CHOOSE j \in 1..Len(q) : q[j] = x IN SubSeq(q, 1, i - 1) \o SubSeq(q, i + 1, Len(q))
 DescAlloc(w, rank, c, l, fresh) ==
   /\ rank = w /\ c # 0
   /\ \E t \in D : At(w, t, "cr0") /\ th' = [th EXCEPT ![t].pc = [@ EXCEPT !.k = "cr1", !.z = c],
                                                      ![c] = [NoTh EXCEPT !.st = "alloc", !.lk = l]]
   /\ IF freeD[w] # <<>>
-     THEN /\ fresh = 0 /\ c = Head(freeD[w]) /\ l = th[c].lk /\ th[c].st = "free"
-          /\ freeD' = [freeD EXCEPT ![w] = Tail(@)] /\ UNCHANGED <<nD, nL>>
+     THEN /\ fresh = 0 /\ InSeq(c, freeD[w]) /\ l = th[c].lk /\ th[c].st = "free"     \* any record of the worker's free list (no order is required)
+          /\ freeD' = [freeD EXCEPT ![w] = Without(@, c)] /\ UNCHANGED <<nD, nL>>
      ELSE /\ fresh = 1 /\ c = nD + 1 /\ l = nL + 1
           /\ nD' = nD + 1 /\ nL' = nL + 1 /\ freeD' = freeD
   /\ gh' = [gh EXCEPT !.kval[c] = {}, !.kpend[c] = {}, !.kopt[c] = {}]      \* a new thread starts with no thread-specific values
@@ -348,11 +350,11 @@ StackAlloc(w, rank, s, lo, hi, kind, idx) ==
                custom == HasFlag(fl, F_PF) \/ HasFlag(fl, F_DETACH) \/ HasFlag(fl, F_STACK) \/ HasFlag(fl, F_ATTR) IN
            /\ (kind = 2) = custom
            /\ th' = [th EXCEPT ![t].pc = [@ EXCEPT !.k = "cr2"], ![th[t].pc.z].stk = s]
-  /\ CASE kind = 0 -> freeS[w] # <<>> /\ s = Head(freeS[w]) /\ freeS' = [freeS EXCEPT ![w] = Tail(@)] /\ UNCHANGED <<flS, nS>>
+  /\ CASE kind = 0 -> freeS[w] # <<>> /\ InSeq(s, freeS[w]) /\ freeS' = [freeS EXCEPT ![w] = Without(@, s)] /\ UNCHANGED <<flS, nS>>
        [] kind = 1 -> freeS[w] = <<>> /\ s = nS + 1 /\ nS' = nS + 1 /\ UNCHANGED <<freeS, flS>>
        [] kind = 2 -> /\ idx \in 0..40
                       /\ IF flS[w][idx] # <<>>
-                         THEN s = Head(flS[w][idx]) /\ flS' = [flS EXCEPT ![w][idx] = Tail(@)] /\ nS' = nS
+                         THEN InSeq(s, flS[w][idx]) /\ flS' = [flS EXCEPT ![w][idx] = Without(@, s)] /\ nS' = nS
                          ELSE s = nS + 1 /\ nS' = nS + 1 /\ flS' = flS
                       /\ freeS' = freeS
   /\ stk[s].st \in {"none", "free"}
